@@ -783,11 +783,11 @@ mutual
 /-- **the writer's output for a column and the reader's consumption agree**: an array with the
 shape `write_array_data` produces for type `t` under version `v` flattens to exactly
 `consumeCount k t v` field nodes and buffers, when the reader's Union arm uses the writer's
-version split `k` and no run-end type is written below it. -/
+version split `k`. -/
 theorem flatten_count (k v : Nat) (hk : k = Generated.C04.HAS_VALIDITY_SPLIT_VERSION) :
-    ∀ (t : DType) (x : ArrayData), shapeOk v t x = true → (v < k → noRee t = true) →
+    ∀ (t : DType) (x : ArrayData), shapeOk v t x = true →
       (flatten x).1.length = (consumeCount k t v).1 ∧ (flatten x).2.length = (consumeCount k t v).2
-  | .null, x, h, _ => by
+  | .null, x, h => by
     simp only [shapeOk, Bool.and_eq_true, List.isEmpty_iff] at h
     obtain ⟨hn, hc⟩ := h
     obtain ⟨ht, hv, hb⟩ := nodeOk_iff _ _ _ _ hn
@@ -795,55 +795,55 @@ theorem flatten_count (k v : Nat) (hk : k = Generated.C04.HAS_VALIDITY_SPLIT_VER
     have hv' : hasValidityBitmap .null v = false := by unfold hasValidityBitmap; split <;> rfl
     simp only [chOf, ht, hc, flattenAll, hv, hv', hb] at this
     simp [consumeCount, this]
-  | .bool, x, h, _ => by
+  | .bool, x, h => by
     simp only [shapeOk, Bool.and_eq_true, List.isEmpty_iff] at h
     obtain ⟨hn, hc⟩ := h
     obtain ⟨ht, hv, hb⟩ := nodeOk_iff _ _ _ _ hn
     have := flatten_lengths x
     simp only [chOf, ht, hc, flattenAll, hv, hv_true .bool v (by simp) (by simp) (by simp), hb] at this
     simp [consumeCount, this]
-  | .prim w, x, h, _ => by
+  | .prim w, x, h => by
     simp only [shapeOk, Bool.and_eq_true, List.isEmpty_iff] at h
     obtain ⟨hn, hc⟩ := h
     obtain ⟨ht, hv, hb⟩ := nodeOk_iff _ _ _ _ hn
     have := flatten_lengths x
     simp only [chOf, ht, hc, flattenAll, hv, hv_true (.prim w) v (by simp) (by simp) (by simp), hb] at this
     simp [consumeCount, this]
-  | .fsb w, x, h, _ => by
+  | .fsb w, x, h => by
     simp only [shapeOk, Bool.and_eq_true, List.isEmpty_iff] at h
     obtain ⟨hn, hc⟩ := h
     obtain ⟨ht, hv, hb⟩ := nodeOk_iff _ _ _ _ hn
     have := flatten_lengths x
     simp only [chOf, ht, hc, flattenAll, hv, hv_true (.fsb w) v (by simp) (by simp) (by simp), hb] at this
     simp [consumeCount, this]
-  | .utf8 l, x, h, _ => by
+  | .utf8 l, x, h => by
     simp only [shapeOk, Bool.and_eq_true, List.isEmpty_iff] at h
     obtain ⟨hn, hc⟩ := h
     obtain ⟨ht, hv, hb⟩ := nodeOk_iff _ _ _ _ hn
     have := flatten_lengths x
     simp only [chOf, ht, hc, flattenAll, hv, hv_true (.utf8 l) v (by simp) (by simp) (by simp), hb] at this
     simp [consumeCount, this]
-  | .binary l, x, h, _ => by
+  | .binary l, x, h => by
     simp only [shapeOk, Bool.and_eq_true, List.isEmpty_iff] at h
     obtain ⟨hn, hc⟩ := h
     obtain ⟨ht, hv, hb⟩ := nodeOk_iff _ _ _ _ hn
     have := flatten_lengths x
     simp only [chOf, ht, hc, flattenAll, hv, hv_true (.binary l) v (by simp) (by simp) (by simp), hb] at this
     simp [consumeCount, this]
-  | .view u, x, h, _ => by
+  | .view u, x, h => by
     simp only [shapeOk, Bool.and_eq_true, List.isEmpty_iff] at h
     obtain ⟨hn, hc⟩ := h
     obtain ⟨ht, hv, hb⟩ := nodeOk_iff _ _ _ _ hn
     have := flatten_lengths x
     simp only [chOf, ht, hc, flattenAll, hv, hv_true (.view u) v (by simp) (by simp) (by simp), hb] at this
     simp [consumeCount, this]
-  | .dict kw s val, x, h, _ => by
+  | .dict kw s val, x, h => by
     simp only [shapeOk] at h
     obtain ⟨ht, hv, hb⟩ := nodeOk_iff _ _ _ _ h
     have := flatten_lengths x
     simp only [chOf, ht, hv, hv_true (.dict kw s val) v (by simp) (by simp) (by simp), hb] at this
     simp [consumeCount, this]
-  | .list l item n, x, h, hr => by
+  | .list l item n, x, h => by
     simp only [shapeOk, Bool.and_eq_true] at h
     obtain ⟨hn, hc⟩ := h
     obtain ⟨ht, hv, hb⟩ := nodeOk_iff _ _ _ _ hn
@@ -854,7 +854,7 @@ theorem flatten_count (k v : Nat) (hk : k = Generated.C04.HAS_VALIDITY_SPLIT_VER
       | cons _ _ => simp [hcs] at hc
       | nil =>
         simp only [hcs] at hc
-        have ih := flatten_count k v hk item c hc (fun hv => by have := hr hv; simpa [noRee] using this)
+        have ih := flatten_count k v hk item c hc
         have := flatten_lengths x
         simp only [chOf, ht, hcs, flattenAll, hv, hv_true (.list l item n) v (by simp) (by simp) (by simp), hb,
           List.append_nil, ↓reduceIte] at this
@@ -862,7 +862,7 @@ theorem flatten_count (k v : Nat) (hk : k = Generated.C04.HAS_VALIDITY_SPLIT_VER
         have ih1 := ih.1
         have ih2 := ih.2
         refine ⟨?_, ?_⟩ <;> simp only [consumeCount] <;> omega
-  | .fsl kk item n, x, h, hr => by
+  | .fsl kk item n, x, h => by
     simp only [shapeOk, Bool.and_eq_true] at h
     obtain ⟨hn, hc⟩ := h
     obtain ⟨ht, hv, hb⟩ := nodeOk_iff _ _ _ _ hn
@@ -873,7 +873,7 @@ theorem flatten_count (k v : Nat) (hk : k = Generated.C04.HAS_VALIDITY_SPLIT_VER
       | cons _ _ => simp [hcs] at hc
       | nil =>
         simp only [hcs] at hc
-        have ih := flatten_count k v hk item c hc (fun hv => by have := hr hv; simpa [noRee] using this)
+        have ih := flatten_count k v hk item c hc
         have := flatten_lengths x
         simp only [chOf, ht, hcs, flattenAll, hv, hv_true (.fsl kk item n) v (by simp) (by simp) (by simp), hb,
           List.append_nil, ↓reduceIte] at this
@@ -881,22 +881,22 @@ theorem flatten_count (k v : Nat) (hk : k = Generated.C04.HAS_VALIDITY_SPLIT_VER
         have ih1 := ih.1
         have ih2 := ih.2
         refine ⟨?_, ?_⟩ <;> simp only [consumeCount] <;> omega
-  | .struct fs, x, h, hr => by
+  | .struct fs, x, h => by
     simp only [shapeOk, Bool.and_eq_true] at h
     obtain ⟨hn, hc⟩ := h
     obtain ⟨ht, hv, hb⟩ := nodeOk_iff _ _ _ _ hn
-    have ih := flattenAll_count k v hk fs x.children hc (fun hv => by have := hr hv; simpa [noRee] using this)
+    have ih := flattenAll_count k v hk fs x.children hc
     have := flatten_lengths x
     simp only [chOf, ht, hv, hv_true (.struct fs) v (by simp) (by simp) (by simp), hb, ↓reduceIte] at this
     obtain ⟨t1, t2⟩ := this
     have ih1 := ih.1
     have ih2 := ih.2
     refine ⟨?_, ?_⟩ <;> simp only [consumeCount] <;> omega
-  | .union dense fs, x, h, hr => by
+  | .union dense fs, x, h => by
     simp only [shapeOk, Bool.and_eq_true] at h
     obtain ⟨hn, hc⟩ := h
     obtain ⟨ht, hv, hb⟩ := nodeOk_iff _ _ _ _ hn
-    have ih := flattenAll_count k v hk fs x.children hc (fun hv => by have := hr hv; simpa [noRee] using this)
+    have ih := flattenAll_count k v hk fs x.children hc
     have := flatten_lengths x
     have hvb : hasValidityBitmap (.union dense fs) v = decide (v < k) := by
       unfold hasValidityBitmap; rw [hk]; split <;> simp [*]
@@ -907,8 +907,7 @@ theorem flatten_count (k v : Nat) (hk : k = Generated.C04.HAS_VALIDITY_SPLIT_VER
       have ih1 := ih.1
       have ih2 := ih.2
       refine ⟨?_, ?_⟩ <;> simp only [consumeCount, hvk, ↓reduceIte] <;> cases dense <;> simp at t2 ⊢ <;> omega
-  | .ree rwd val, x, h, hr => by
-    have hvk : ¬ v < k := fun hv => by have := hr hv; simp [noRee] at this
+  | .ree rwd val, x, h => by
     simp only [shapeOk, Bool.and_eq_true] at h
     obtain ⟨hn, hc⟩ := h
     obtain ⟨ht, hv, hb⟩ := nodeOk_iff _ _ _ _ hn
@@ -924,12 +923,12 @@ theorem flatten_count (k v : Nat) (hk : k = Generated.C04.HAS_VALIDITY_SPLIT_VER
           simp only [hcs, Bool.and_eq_true, List.isEmpty_iff] at hc
           obtain ⟨⟨hre, hrec⟩, hvals⟩ := hc
           obtain ⟨rt, rv, rb⟩ := nodeOk_iff _ _ _ _ hre
-          have ih := flatten_count k v hk val vals hvals (fun hv => absurd hv hvk)
+          have ih := flatten_count k v hk val vals hvals
           have hre1 := flatten_lengths re
           simp only [chOf, rt, hrec, flattenAll, rv, hv_true (.prim rwd) v (by simp) (by simp) (by simp), rb, List.length_nil, ↓reduceIte] at hre1
           have := flatten_lengths x
           have hvb : hasValidityBitmap (.ree rwd val) v = false := by
-            unfold hasValidityBitmap; rw [← hk]; simp [hvk]
+            unfold hasValidityBitmap; split <;> rfl
           simp only [chOf, ht, hcs, flattenAll, hv, hvb, hb, List.append_nil, List.length_append, List.length_nil, Bool.false_eq_true, ↓reduceIte] at this
           obtain ⟨r1, r2⟩ := hre1
           obtain ⟨t1, t2⟩ := this
@@ -937,15 +936,15 @@ theorem flatten_count (k v : Nat) (hk : k = Generated.C04.HAS_VALIDITY_SPLIT_VER
           have ih2 := ih.2
           refine ⟨?_, ?_⟩ <;> simp only [consumeCount] <;> omega
 theorem flattenAll_count (k v : Nat) (hk : k = Generated.C04.HAS_VALIDITY_SPLIT_VERSION) :
-    ∀ (fs : Fields) (cs : List ArrayData), shapeFields v fs cs = true → (v < k → noRee.noReeF fs = true) →
+    ∀ (fs : Fields) (cs : List ArrayData), shapeFields v fs cs = true →
       (flattenAll cs).1.length = (consumeFields k fs v).1 ∧ (flattenAll cs).2.length = (consumeFields k fs v).2
-  | .nil, [], _, _ => by simp [flattenAll, consumeFields]
-  | .nil, _ :: _, h, _ => by simp [shapeFields] at h
-  | .cons _ _ _ _, [], h, _ => by simp [shapeFields] at h
-  | .cons _ t _ r, c :: cs, h, hr => by
+  | .nil, [], _ => by simp [flattenAll, consumeFields]
+  | .nil, _ :: _, h => by simp [shapeFields] at h
+  | .cons _ _ _ _, [], h => by simp [shapeFields] at h
+  | .cons _ t _ r, c :: cs, h => by
     simp only [shapeFields, Bool.and_eq_true] at h
-    have i1 := flatten_count k v hk t c h.1 (fun hv => by have := hr hv; simp [noRee.noReeF] at this; exact this.1)
-    have i2 := flattenAll_count k v hk r cs h.2 (fun hv => by have := hr hv; simp [noRee.noReeF] at this; exact this.2)
+    have i1 := flatten_count k v hk t c h.1
+    have i2 := flattenAll_count k v hk r cs h.2
     simp only [flattenAll, consumeFields, List.length_append, ← i1.1, ← i1.2, ← i2.1, ← i2.2, and_self]
 end
 end ArrowModel.C04
